@@ -16,6 +16,8 @@
 //!   p            pause 25 ms
 //!   B<n>         (first) ServerBuilder::set_message_buffer_capacity(n): the bounded outgoing queue of a WS connection
 //!   P<n>         (first) every reply is padded to n KiB
+//!   I<ms>        (first) ServerBuilder::enable_ws_ping with ping interval <ms> (inactivity limit 60 s): the clients' reader tasks
+//!                answer every ping with a pong, so pongs keep arriving while calls execute and while the server stops
 //!   cW           like cw, but the client socket has a 4 KiB receive buffer (with q<c> the server's writer blocks)
 //!   q<c> / g<c>  the client's reader task of connection c stops / resumes reading
 //!   A            open the gates of all calls sent so far in one step
@@ -250,8 +252,11 @@ fn module(case: Arc<Case>) -> RpcModule<Arc<Case>> {
 async fn run_case(line: &str) -> String {
 	let mut cap: Option<u32> = None;
 	let mut pad = 0usize;
+	let mut ping: Option<u64> = None;
 	for op in line.split_whitespace() {
-		if let Some(v) = op.strip_prefix('B') {
+		if let Some(v) = op.strip_prefix('I') {
+			ping = v.parse().ok();
+		} else if let Some(v) = op.strip_prefix('B') {
 			cap = v.parse().ok();
 		} else if let Some(v) = op.strip_prefix('P') {
 			pad = v.parse::<usize>().unwrap_or(0) * 1024;
@@ -262,10 +267,16 @@ async fn run_case(line: &str) -> String {
 	// this process (whose earlier servers are gone), never by a server of a concurrently running history
 	let pid = std::process::id();
 	let bind = format!("127.{}.{}.1:0", 1 + (pid / 250) % 250, pid % 250);
-	let builder = match cap {
-		Some(n) => jsonrpsee_server::ServerBuilder::with_config(jsonrpsee_server::ServerConfig::builder().set_message_buffer_capacity(n.max(1)).build()),
-		None => Server::builder(),
-	};
+	let mut cfg = jsonrpsee_server::ServerConfig::builder();
+	if let Some(n) = cap {
+		cfg = cfg.set_message_buffer_capacity(n.max(1));
+	}
+	if let Some(ms) = ping {
+		cfg = cfg.enable_ws_ping(
+			jsonrpsee_server::PingConfig::new().ping_interval(Duration::from_millis(ms.max(1))).inactive_limit(Duration::from_secs(60)),
+		);
+	}
+	let builder = if cap.is_some() || ping.is_some() { jsonrpsee_server::ServerBuilder::with_config(cfg.build()) } else { Server::builder() };
 	let server = match builder.build(bind.as_str()).await {
 		Ok(s) => s,
 		Err(_) => return "FATAL bind".into(),
@@ -417,7 +428,7 @@ async fn run_case(line: &str) -> String {
 				}
 			}
 			("p", _) => sleep(Duration::from_millis(25)).await,
-			("B", _) | ("P", _) => {}
+			("B", _) | ("P", _) | ("I", _) => {}
 			("A", _) => {
 				for k in 0..sent.len().min(MAXCALLS) {
 					case.gates[k].add_permits(1);
